@@ -6,18 +6,28 @@
     the source this run (`Extracted.Plugins`).  Quantifier: every list of configured plugins `specs` (built-in
     and custom, importable or not, constructible or not, active or not, any `order()` value incl. `None`,
     negative, ties).
+  * "switched off by configuration": `Extracted.Plugins.isActive` is `Plugin.is_active` + `utils.str2bool` translated from
+    the source this run, on the value `PLUGIN_<NAME>` has when it reaches `is_active` (text, Python bool/int, or None).
+  * what the statement's "the agent still starts" and "the snapshot is still delivered" rest on: `c20_start_completes`
+    and `c20_snapshot_delivered` hold when ONLY plugin callbacks fail (with an `Exception`).  Unguarded steps of
+    `Deep.start` — `load_plugins` as a whole, `Resource.create`, `config.resource_providers`, `trigger_handler.start`,
+    `grpc.start`, `poll.start` — and of `_decorate_snapshot` — building the attributes, the final `merge_in` — are agent
+    code; if one of THEM fails, start raises / the snapshot is lost (for the trace path contained by C01's handlers).
   * isolation: one theorem per callback family, each obtained from the *generic* isolation theorem
     (`Guard.iso_loop`, Proofs/GuardIso.lean) applied to the loop of that family in the guard skeleton extracted
     from the source this run.  Quantifier: every environment whose faults are `Exception`-class (`FaultsIn
     onlyExc`: what the handlers of the plugin loops are written for — a `BaseException` from a plugin is contained
     by C01's wrapper and by the per-action handler, but may cost the rest of that action) — i.e. every subset of
     callbacks raising at every call, every number of plugins, every branch decision; shutdown: either class.
-    Each theorem says: the loop ends normally (the host operation goes on: the agent starts / the snapshot is
-    delivered with the remaining decorations / the remaining metrics are recorded / shutdown goes on) and
-    every iteration j is entered — a failure of plugin i never skips plugin j.
+    Each theorem says: the loop ends normally (the host operation goes on) and in EVERY iteration j the first call of
+    the loop body — the plugin callback itself, or the argument read that directly precedes it (decorators: the
+    snapshot id; span creation: the tracepoint; metric: the method name) — is made right after the iteration starts,
+    whatever failed in the other iterations: a failure of plugin i never skips plugin j.  What the callback of j then
+    does is the plugin's own business; that the delivered snapshot / metrics / spans of the other plugins are the same
+    as without the failure is what the fault-subset runs on the real code compare.
 -/
 import DeepModel.Proofs.Plugins
-import DeepModel.Proofs.GuardProg
+import DeepModel.Proofs.GuardAt
 
 namespace C20
 open Plugins Guard Extracted.Guards
@@ -39,6 +49,46 @@ theorem c20_loaded_iff (specs : List Spec) (s : Spec) :
     s ∈ load specs ↔ s ∈ specs ∧ s.loadable = true := by
   rw [(c20_loaded specs).1.mem_iff, List.mem_filter]
 
+/-- spelled out: loaded ⇔ configured, importable, constructible, `is_active()` evaluates to true for its switch, and
+    `order()` usable. -/
+theorem c20_loaded_iff_spelled (specs : List Spec) (s : Spec) :
+    s ∈ load specs ↔ s ∈ specs ∧ s.importOk = true ∧ s.ctorOk = true ∧
+      Extracted.Plugins.isActive s.switch = some true ∧ s.order ≠ .unusable := by
+  rw [c20_loaded_iff]
+  have hg : Extracted.Plugins.orderGuarded = true := by decide
+  simp only [Spec.loadable, Spec.active, Spec.orderOk, hg, Bool.not_true, Bool.or_false, Bool.and_eq_true]
+  constructor
+  · rintro ⟨h1, ⟨⟨h2, h3⟩, h4⟩, h5⟩
+    refine ⟨h1, h2, h3, ?_, ?_⟩
+    · cases hh : Extracted.Plugins.isActive s.switch with
+      | none => simp [hh] at h4
+      | some b => simp [hh] at h4; rw [h4]
+    · cases ho : s.order <;> simp_all
+  · rintro ⟨h1, h2, h3, h4, h5⟩
+    refine ⟨h1, ⟨⟨h2, h3⟩, by simp [h4]⟩, ?_⟩
+    cases ho : s.order <;> simp_all
+
+/-- **switched off by configuration** — what `is_active` makes of the `PLUGIN_<NAME>` value (translated from the
+    source): not set / `None` ⇒ active; any text, bool or number ⇒ active iff its text form, lower-cased, is one of
+    "yes", "true", "t", "1", "y".  In particular `False`, `0`, `''`, `'False'`, `'no'`, `'off'` switch a plugin off and
+    it is then not loaded (`c20_loaded_iff_spelled`). -/
+theorem c20_switch (v : PyVal) :
+    Extracted.Plugins.isActive none = some true ∧
+    Extracted.Plugins.isActive (some v) = some (["yes", "true", "t", "1", "y"].contains (Py.lower (pyStr v))) := by
+  refine ⟨rfl, ?_⟩
+  cases v <;> simp [Extracted.Plugins.isActive, Extracted.Plugins.truthy, Extracted.Plugins.str2boolCoerces, pyStr]
+
+theorem c20_switch_examples :
+    Extracted.Plugins.isActive (some (.bool false)) = some false ∧ Extracted.Plugins.isActive (some (.int 0)) = some false ∧
+    Extracted.Plugins.isActive (some (.text "")) = some false ∧ Extracted.Plugins.isActive (some (.text "False")) = some false ∧
+    Extracted.Plugins.isActive (some (.bool true)) = some true ∧ Extracted.Plugins.isActive (some (.text "YES")) = some true := by
+  decide
+
+/-- a plugin whose `order()` cannot be used never makes the load fail (it is skipped: `c20_loaded_iff_spelled`). -/
+theorem c20_load_total (specs : List Spec) : loadRaises specs = false := by
+  have hg : Extracted.Plugins.orderGuarded = true := by decide
+  simp [loadRaises, hg]
+
 /-- the order is the declared one: a loaded plugin with a smaller key is never behind one with a larger key. -/
 theorem c20_order_respected (specs : List Spec) (i j : Nat) (hi : i < j) (hj : j < (load specs).length) :
     ((load specs)[i]'(by omega)).key ≤ ((load specs)[j]'hj).key :=
@@ -53,51 +103,51 @@ theorem c20_direction : Extracted.Plugins.sortReverse = false ∧ Extracted.Plug
 /-- the statement shared by the families below; the loop is named by position (`lastLoop`: the only loop of the
     function, or the inner one of the metric pair), so renaming the iterated variable does not matter -/
 def Isolated (allowed : RaiseSet) (s : Stmt) : Prop :=
-  ∃ id body, lastLoop s = some (id, body) ∧
+  ∃ id body site, lastLoop s = some (id, body) ∧ firstCall body = some site ∧
     ∀ env, FaultsIn allowed env → ∀ tr, ∃ tr', exec env (.loop id body) tr = (.normal, tr') ∧
-      (∀ j, j < env.iters tr id → Ev.iter id j ∈ tr') ∧ (∀ ev ∈ tr, ev ∈ tr')
+      (∀ j, j < env.iters tr id → ∃ f, Adjacent (Ev.call site f) (Ev.iter id j) tr')
 
 /-- importing: a plugin module that is missing (or whose import fails) does not stop the following names. -/
 theorem c20_import_isolated : Isolated RaiseSet.onlyExc pluginGenerator :=
-  isoLastLoop_spec _ _ (by decide)
+  isoCallLastLoop_spec _ _ (by decide)
 
 /-- constructing / `is_active()`: a raising constructor or an inactive plugin (`continue`) skips only itself. -/
 theorem c20_construct_isolated :
     Isolated RaiseSet.onlyExc loadPlugins :=
-  isoLastLoop_spec _ _ (by decide)
+  isoCallLastLoop_spec _ _ (by decide)
 
 /-- resource providers in `Deep.start`: a failing provider costs its own attributes; the loop ends normally and
     `start` goes on to install the hooks. -/
 theorem c20_resource_isolated : Isolated RaiseSet.onlyExc deepStart :=
-  isoLastLoop_spec _ _ (by decide)
+  isoCallLastLoop_spec _ _ (by decide)
 
 /-- snapshot decorators: the snapshot is still completed (the loop ends normally, `merge_in` + `return` follow)
     with the decorations of the others. -/
 theorem c20_decorators_isolated : Isolated RaiseSet.onlyExc decorateSnapshot :=
-  isoLastLoop_spec _ _ (by decide)
+  isoCallLastLoop_spec _ _ (by decide)
 
 /-- metric processors: for each metric every processor is tried. -/
 theorem c20_metric_processors_isolated :
     Isolated RaiseSet.onlyExc metricProcessAction :=
-  isoLastLoop_spec _ _ (by decide)
+  isoCallLastLoop_spec _ _ (by decide)
 
 /-- span processors: every processor is asked to create its span. -/
 theorem c20_span_processors_isolated :
     Isolated RaiseSet.onlyExc spanProcessAction :=
-  isoLastLoop_spec _ _ (by decide)
+  isoCallLastLoop_spec _ _ (by decide)
 
 /-- closing spans: every span created for the line/method is closed even if another one fails to close. -/
 theorem c20_spans_close_isolated : Isolated RaiseSet.onlyExc spanCallbackProcess :=
-  isoLastLoop_spec _ _ (by decide)
+  isoCallLastLoop_spec _ _ (by decide)
 
 /-- results of an event (log line through the tracepoint logger, decorated snapshot push): one failing result
     does not lose the others. -/
 theorem c20_results_isolated : Isolated RaiseSet.onlyExc triggerContextExit :=
-  isoLastLoop_spec _ _ (by decide)
+  isoCallLastLoop_spec _ _ (by decide)
 
 /-- plugin shutdown: every plugin is shut down, whatever class the others raise. -/
 theorem c20_shutdown_isolated : Isolated RaiseSet.all deepShutdown :=
-  isoLastLoop_spec _ _ (by decide)
+  isoCallLastLoop_spec _ _ (by decide)
 
 /-- **after the decorators, the snapshot is returned**: `_decorate_snapshot` has exactly two ways to end, for
     every environment: it returns the snapshot, or something outside the guarded decorator loop raised (the
@@ -124,16 +174,48 @@ theorem c20_decorate_returns (env : Env) (tr : Trace) (o : Out) (tr' : Trace)
     have h2 : mayCont decorateSnapshot = false := by decide
     rw [h2] at this; simp at this
 
+/-- the call sites of the (last) loop of a function: where its plugin callbacks are -/
+def loopSites (s : Stmt) : List String := (lastLoop s).elim [] (fun p => sites p.2)
+
+/-- **the agent still starts** — when the only calls of `Deep.start` that fail are those of the resource-provider
+    loop (a provider's `resource()`, merging what it returned), with an `Exception`, then for every such failure
+    pattern `start` (of an instance that is neither started nor shut down) runs to its end and sets `started`. -/
+theorem c20_start_completes (env : Env) (hf : FaultsAt (onlyAt (loopSites deepStart)) env)
+    (h1 : ∀ tr, env.cond tr "self.started" = false) (h2 : ∀ tr, env.cond tr "self._shutdown" = false)
+    (tr : Trace) (o : Out) (tr' : Trace) (h : exec env deepStart tr = (o, tr')) :
+    o = .normal ∧ Ev.set "started" "True" ∈ tr' :=
+  completes_with_store (onlyAt (loopSites deepStart)) deepStart (by decide)
+    [("self.started", false), ("self._shutdown", false)] (by decide) (by decide) (by decide) "started" "True" (by decide)
+    env hf (agrees_of_forall _ env (by
+      intro p hp tr0
+      simp only [List.mem_cons, List.not_mem_nil, or_false] at hp
+      rcases hp with rfl | rfl
+      · exact h1 tr0
+      · exact h2 tr0)) tr o tr' h
+
+/-- **the snapshot is still delivered with the remaining decorations** — when the only calls of `_decorate_snapshot`
+    that fail are those of the decorator loop (reading the id, a decorator's `decorate()`, merging what it returned), with
+    an `Exception`, the function returns the snapshot (which its caller then pushes), for every such failure pattern. -/
+theorem c20_snapshot_delivered (env : Env) (hf : FaultsAt (onlyAt (loopSites decorateSnapshot)) env)
+    (tr : Trace) (o : Out) (tr' : Trace) (h : exec env decorateSnapshot tr = (o, tr')) :
+    o = .returned "self.snapshot" := by
+  rcases c20_decorate_returns env tr o tr' h with h' | ⟨e, rfl⟩
+  · exact h'
+  · exact absurd h (guard_sound_at (onlyAt (loopSites decorateSnapshot)) decorateSnapshot (by decide) env hf tr e tr')
+
 /-! ### non-vacuity -/
 
-private def sp (id : Nat) (imp ctor act : Bool) (o : Option Int) : Spec := ⟨id, imp, ctor, act, o⟩
+private def sp (id : Nat) (imp ctor act : Bool) (o : Option Int) : Spec :=
+  ⟨id, imp, ctor, if act then none else some (.bool false), .value o⟩
 
 /-- built-in 0 and 1, custom 2..6: one missing module, one inactive, one raising constructor, ties, `None`,
     a negative order. -/
 example :
     (load [sp 0 true true true (some 0), sp 1 false true true none, sp 2 true true true (some 5),
            sp 3 true false true (some (-9)), sp 4 true true false (some (-8)), sp 5 true true true none,
-           sp 6 true true true (some (-1)), sp 7 true true true (some 5)]).map Spec.id = [6, 0, 5, 2, 7] := by
+           sp 6 true true true (some (-1)), sp 7 true true true (some 5),
+           ⟨8, true, true, none, .unusable⟩, ⟨9, true, true, some (.text "no"), .value (some (-50))⟩]).map Spec.id
+      = [6, 0, 5, 2, 7] := by
   decide
 
 /-- a loop without the per-plugin `try` is not isolated (what the metric loop looked like before it was guarded) -/
